@@ -60,8 +60,104 @@ func prePublication(p *Prog, handle *ssa.Function, site ssa.CallInstruction, dep
 	return true
 }
 
+// runC14MarshalAppend: C14.4 (defect D24).  message.encode hands a pooled buffer's bytes as
+// `base` to a marshal-append function, releases the message's previous buffer, and wraps the
+// result (adopting it when it outgrew the buffer).  That is only sound if the result was grown
+// from `base`: a function in that role that returns some other slice - e.g. the bytes field of
+// the message, which aliases the buffer the message was decoded from - makes the message keep
+// using an array that is already back in the pool.
+func runC14MarshalAppend(c *Ctx) {
+	p := c.P
+	c.Rule("C14.4", "functions in the marshal-append role return a slice grown from the base they were given", 4)
+	n := 0
+	for _, fn := range p.Funcs {
+		if !p.inScope(fn) || fn.Signature.Recv() == nil {
+			continue
+		}
+		nm := N(fn)
+		if nm != "prepareMarshalledRequest" && nm != "prepareMarshalledResponse" {
+			continue
+		}
+		// the []byte parameter
+		var base *ssa.Parameter
+		for _, prm := range fn.Params {
+			if sl, ok := prm.Type().Underlying().(*types.Slice); ok {
+				if b, ok := sl.Elem().Underlying().(*types.Basic); ok && b.Kind() == types.Uint8 {
+					base = prm
+				}
+			}
+		}
+		if base == nil || fn.Signature.Results().Len() != 2 {
+			continue
+		}
+		var fromBase func(v ssa.Value, depth int) bool
+		fromBase = func(v ssa.Value, depth int) bool {
+			if depth > 5 {
+				return false
+			}
+			switch x := v.(type) {
+			case *ssa.Parameter:
+				return x == base
+			case *ssa.Const:
+				return x.IsNil()
+			case *ssa.Phi:
+				for _, e := range x.Edges {
+					if !fromBase(e, depth+1) {
+						return false
+					}
+				}
+				return len(x.Edges) > 0
+			case *ssa.Slice:
+				return fromBase(x.X, depth+1)
+			case *ssa.Extract:
+				return fromBase(x.Tuple, depth+1)
+			case *ssa.Call:
+				cc := x.Common()
+				if b, ok := cc.Value.(*ssa.Builtin); ok && b.Name() == "append" {
+					return fromBase(cc.Args[0], depth+1)
+				}
+				// a callee in the same role: MarshalAppend*(base, ...) / prepareMarshalled*(op, base, ...)
+				name := ""
+				if cc.IsInvoke() {
+					name = N(cc.Method)
+				} else if sc := cc.StaticCallee(); sc != nil {
+					name = N(sc)
+				}
+				if strings.HasPrefix(name, "MarshalAppend") || strings.HasPrefix(name, "prepareMarshalled") {
+					for _, a := range cc.Args {
+						if sl, ok := a.Type().Underlying().(*types.Slice); ok {
+							if bb, ok := sl.Elem().Underlying().(*types.Basic); ok && bb.Kind() == types.Uint8 {
+								return fromBase(a, depth+1)
+							}
+						}
+					}
+				}
+			}
+			return false
+		}
+		ForEachInstr(fn, func(in ssa.Instruction) {
+			ret, ok := in.(*ssa.Return)
+			if !ok || ret.Block() == fn.Recover {
+				return
+			}
+			rv := ReturnValues(ret)
+			if len(rv) != 2 || !IsNilConst(rv[1]) {
+				return // error return
+			}
+			n++
+			c.Check(fromBase(rv[0], 0), "C14.4", FuncName(fn), "result-grown-from-base", ret.Pos(),
+				"the marshalled form is the base buffer, an append to it, or what a marshal-append callee made of it",
+				"the marshalled form returned is not grown from the base buffer (it may alias the buffer the message was decoded from): message.encode releases that buffer and adopts the result, so the message and the pool share one backing array")
+		})
+	}
+	if n == 0 {
+		c.Bad("C14.4", "preparers", "result-grown-from-base", token.NoPos, "no body preparer in the marshal-append role found: shape changed")
+	}
+}
+
 func runC14(c *Ctx) {
 	p := c.P
+	defer runC14MarshalAppend(c)
 	// clause shared with C03 (see DESIGN.md section 6a)
 	defer c.ImportRules("C03", "C03.13")
 	bpPut := p.MustFunc("(*bufferPool).Put")
